@@ -135,7 +135,7 @@ impl Prop for C01 {
   }
 
   /// Miri stage: the kernels this property's constructs dispatch to, driven directly (crate /verif/miri) under the undefined-behaviour interpreter
-  fn post_stage(&self, tier: Tier, seed: u64, _self_exe: &str) -> Vec<(Case, Outcome)> { crate::fw::miri_stage("C01", tier, seed, if tier == Tier::Quick { 1 } else { 1 }) }
+  fn post_stage(&self, tier: Tier, seed: u64, _self_exe: &str) -> Vec<(Case, Outcome)> { crate::fw::miri_stage("C01", tier, seed, if tier == Tier::Quick { 2 } else { 1 }) }
 
   fn run(&self, case: &Case, _flavour: &str) -> Outcome {
     if case.cell.starts_with("stage=miri") { return crate::fw::miri_run_one(case); }
